@@ -368,6 +368,23 @@ def selftest_determinism(args):
                     bad += 1
                     D.log("NONDETERMINISM in %s at %d workers" % (prop, workers))
         D.log("determinism %s: %d families x 4 runs identical" % (prop, n))
+    # the interpreter: the same interpreter seed must give the same schedule
+    # (per-family result-log hashes and the number of seam events), run after
+    # run; C15 is the profile with threads and preemption
+    if not os.environ.get("VERIF_NO_MIRI"):
+        for prop, target, flags, count in (("C15", "x86_64", "-Zmiri-preemption-rate=0.1", 48),
+                                           ("C05", "aarch64", "", 32)):
+            ref = None
+            for rep in range(3):
+                r = M.run_miri(prop, target, 1, 0, count, D.NCPU, 4, miri_seed_base=1000, extra_flags=flags,
+                               want_hashes=True)
+                key = (sorted(r["hashes"].items()), r["stats"].get("seam_events"), r["stats"].get("ops"))
+                if ref is None:
+                    ref = key
+                elif ref != key:
+                    bad += 1
+                    D.log("NONDETERMINISM under Miri %s in %s (run %d)" % (target, prop, rep))
+            D.log("determinism %s under Miri %s: %d families x 3 runs identical" % (prop, target, count))
     return 2 if bad else 0
 
 
